@@ -91,11 +91,12 @@ def meta_objs(spec):
 
 
 def _detuple(d):
+    import copy
     out = {}
     for k, v in d.items():
         if isinstance(v, dict) and v.get('__tuple__') is not None:
             v = tuple(v['__tuple__'])
-        out[k] = v
+        out[k] = copy.deepcopy(v)     # never share objects with the spec
     return out
 
 
